@@ -592,8 +592,17 @@ class Unit:
                 tname = m0.group(3)
                 m.group = lambda k, _t=tname: _t
                 hdr_end = it['body_open']
-                ed.add(it['hdr_a'], hdr_end, "impl%s %s%s " % (m0.group(1) or '', tname, m0.group(4) or ''), 'T1')
+                foreign = tname in ('String',)
+                if foreign:
+                    # the target is a std type: no inherent impl possible; the function is emitted on a local unit struct
+                    # T1_<Target> and `Self` in its signature is spelled out (body verbatim)
+                    ed.add(it['hdr_a'], hdr_end, "pub struct T1_%s; impl%s T1_%s " % (tname, m0.group(1) or '', tname), 'T1')
+                else:
+                    ed.add(it['hdr_a'], hdr_end, "impl%s %s%s " % (m0.group(1) or '', tname, m0.group(4) or ''), 'T1')
                 body = text[it['body_open']:it['b']]
+                if foreign:
+                    for sm in re.finditer(r'Result<Self,', body):
+                        ed.add(it['body_open'] + sm.start(), it['body_open'] + sm.end(), 'Result<%s,' % tname, 'T1')
                 tm = re.search(r'type Error = SnmpError;\s*\n', body)
                 if not tm:
                     raise LostAnchor("T1: no `type Error = SnmpError;` in %s of %s" % (it['key'], path))
